@@ -820,7 +820,7 @@ def c20(chk, tier, extra=None):
     import json
     import c20 as C20
     thorough = tier == "thorough"
-    fxs = load(tier, want_ok=True, limit=None if thorough else 160, salt=20) + [f for f in (extra or []) if f.obs["outcome"] == "ok"]
+    fxs = load(tier, want_ok=True, limit=None, salt=20) + [f for f in (extra or []) if f.obs["outcome"] == "ok"]
     rnd = random.Random(seed() * 31 + 20)
     cases, meta = [], {}
     for n, fx in enumerate(fxs):
@@ -830,7 +830,7 @@ def c20(chk, tier, extra=None):
         if b"vfFresh" in alltext or b"vffresh" in alltext:
             continue
         tb = top_blocks(fx) if len(fx.files) == 1 else None
-        fresh = (FRESH if thorough else rnd.sample(FRESH, 3)) + _mirror_blocks(fx, rnd, 3 if thorough else 1)
+        fresh = (FRESH if thorough else rnd.sample(FRESH, 2)) + _mirror_blocks(fx, rnd, 4 if thorough else 2)
         for j, (kind, lines, keys) in enumerate(fresh):
             blk = fx.nl.join(x.encode() for x in lines) + fx.nl
             where = "end"
